@@ -367,6 +367,19 @@ def install_lp(reg, src):
         c.requires(linear(sp, e), name="linear expression")
         c.returns(T.real("float"))
         c.ensures("constant", lambda res: real_term(res) == sp.den(e, ZENV, sp.PV))
+        if c.verifying and case == "LinearCombination|VectorExpression":
+            # (present after the D9 repair) weighted sum of the elements' constants:  total = sum_{k<i} c_k * [[elem_k]](0)
+            from .seqtheory import VLEN, register_vector
+            from .vecspec import FV
+            r = sp.ref(e)
+            v = FV(sp, r)
+            register_vector(sp, v, None, ZENV, sp.PV)
+            sp.den(e, ZENV, sp.PV)
+            arrZ = sym.fn("A_lc", sym.Ref, sym.EnvSort, sym.PVSort, sym.RealArr)(r, ZENV, sp.PV)
+
+            def inv(st):
+                return [real_term(st.var("total")) == sp.S.PSUM(arrZ, st.i)]
+            c.loop(1, inv, havoc={"total": T.real("float")})
 
     # ---- _extract_all_coefficients_impl: accumulates multiplier * (linear part of e) into result
     @reg.contract(f"{M}:_extract_all_coefficients_impl", props=["C05", "C08"], cases={"node": lin_cases}, group="lpcoef", rank=1)
